@@ -105,8 +105,12 @@ def ob_roundtrip(ctx, L, N):
     le = ctx.pick('line_endings', [None, 'unix', 'dos'])
     if enc is not None:
         text = sym_str(ctx, 't', ctx.choose(1, N, 'n'))
+        if ctx.pick('shape', ['bare', 'multiline']) == 'multiline':
+            # several lines (the library splits on the codec's own newline bytes when it indents / strips indentation)
+            nl = '\r\n' if le == 'dos' else '\n'
+            text = mk_seq(tuple(map(ord, 'ab' + nl)) + tuple(text.el) + tuple(map(ord, nl + ' c' + nl + 'd')), str)
     else:
-        text = ctx.pick('text', ['hi', 'a\r\nb'])
+        text = ctx.pick('text', ['hi', 'a\r\nb', 'ab\n c\nd\n'])
     wit = lambda m: {'kind': 'roundtrip', 'name': model_str(m, name), 'codec': info.name,
                      'text': model_str(m, text), 'line_endings': le}
 
@@ -124,8 +128,10 @@ def ob_roundtrip(ctx, L, N):
         data0, recs0 = run(info.name)
     except UnicodeEncodeError:
         return skip('text not encodable')
+    except PathTimeout:
+        raise
     except Exception as e:
-        return skip('canonical spelling fails (%s): not this property' % type(e).__name__)
+        return viol('roundtrip-fails-under-canonical-name:%s' % type(e).__name__, dict(wit(ctx.model()), error=str(e)[:200]))
     try:
         data1, recs1 = run(name)
     except PathTimeout:
@@ -138,7 +144,10 @@ def ob_roundtrip(ctx, L, N):
     i1 = d1.find(b'#..preamble:')
     c0 = mk_seq(d0.el[d0.find(b'\n', i0) + 1:], bytes)
     c1 = mk_seq(d1.el[d1.find(b'\n', i1) + 1:], bytes)
+    from harness.rw import norm_text
+    want, _ = norm_text(text, le)
     props = [('text-read-back', seq_eq(recs1[2].get('text'), recs0[2].get('text'))),
+             ('text-equals-written', seq_eq(recs1[2].get('text'), want)),
              ('bytes-apart-from-name', seq_eq(c0, c1)),
              ('length-option', recs1[2]['options'].get('length') == recs0[2]['options'].get('length'))]
     return verdict(ctx, props, witness=wit, sample=lambda m: wit(m))
@@ -323,8 +332,11 @@ def replay(ob, label, w):
         return data, list(DiffXReader(io.BytesIO(data)))
     try:
         d0, r0 = run(info.name)
+    except UnicodeEncodeError as e:
+        return {'violated': False, 'error': 'text not encodable: %s' % e}
     except Exception as e:
-        return {'violated': False, 'error': 'canonical spelling fails: %s' % e}
+        return {'violated': True, 'signature': 'spelling:roundtrip-fails',
+                'detail': 'encoding=%r (canonical name of %r): %s: %s' % (info.name, name, type(e).__name__, e)}
     try:
         d1, r1 = run(name)
     except Exception as e:
@@ -332,6 +344,11 @@ def replay(ob, label, w):
                 'detail': 'encoding=%r (%s): %s: %s; canonical spelling works' % (name, info.name, type(e).__name__, e)}
     c0 = d0[d0.index(b'\n', d0.index(b'#..preamble:')) + 1:]
     c1 = d1[d1.index(b'\n', d1.index(b'#..preamble:')) + 1:]
+    from harness.rw import norm_text
+    want = norm_text(w['text'], w['line_endings'])[0]
+    if r1[2].get('text') != want:
+        return {'violated': True, 'signature': 'spelling:roundtrip-differs',
+                'detail': 'encoding=%r: wrote %r, read back %r' % (name, want, r1[2].get('text'))}
     if r1[2].get('text') != r0[2].get('text') or c0 != c1:
         return {'violated': True, 'signature': 'spelling:roundtrip-differs',
                 'detail': 'encoding=%r vs %r: text %r vs %r; bytes %r vs %r' % (name, info.name, r1[2].get('text'), r0[2].get('text'), c1, c0)}
